@@ -269,7 +269,9 @@ def job_history(job) -> report.JobResult:
                 m_now, c_now, s_now = states[i + 1]
                 changed = z3.Or(s_now != s_src, m_now - m_src >= 1000)
                 if op == "replace-keeping-older-mtime":
-                    changed = z3.BoolVal(True)
+                    # another version of the file was put in place: changed unless it is the very version the validators describe
+                    # (a rollback that restores the same mtime AND size -- then 304 is the right answer, see DESIGN section 6)
+                    changed = z3.Or(s_now != s_src, m_now != m_src)
                 same = z3.And(s_now == s_src, m_now == m_src, c_now == c_src)
                 uses_etag = form != "last-modified"
                 if status == 304:
@@ -383,7 +385,7 @@ def concrete_history(w) -> Optional[str]:
                     continue
                 m_src, c_src, s_src = st[src]
                 m_now, c_now, s_now = st[i + 1]
-                changed = s_now != s_src or m_now - m_src >= 1000
+                changed = s_now != s_src or m_now - m_src >= 1000 or (op == "replace-keeping-older-mtime" and m_now != m_src)
                 same = (m_now, c_now, s_now) == (m_src, c_src, s_src)
                 if status == 304 and changed and form != "star":
                     return f"stale 304 at step {i + 1} (form {form}): file state {st[src]} -> {st[i + 1]}"
